@@ -3,6 +3,7 @@
   (first instalment: the index layer; `C12_build_faithful` for the constructors follows)
 -/
 import Fx.Index
+import Fx.Walk
 namespace Fx.C12
 open Fx
 
@@ -74,5 +75,315 @@ theorem C12_type_index_sound (entries : List (String × AstType)) (m : List (Str
         exact Or.inl (by simp)
       · rw [bget_bins_other _ _ _ _ hk] at hb
         exact Or.inr hb
+
+/-! ### the constructors: nothing dropped, merged or invented -/
+
+/-- the labels an arm node of a union contributes: its own case value, and the word `default` for the default arm -/
+def armLabels : Node → List String
+  | .unionCase (.type t :: _) => [t.asStr]
+  | .unionCase _ => []
+  | .unionDefault (.type t :: _) => ["default", t.asStr]
+  | .unionDefault _ => ["default"]
+  | _ => []
+
+def isDefaultArm : Node → Bool
+  | .unionDefault _ => true
+  | _ => false
+
+/-- every label the accumulator of `Union::new` holds: data arms, void arms, the default arm, and the labels still waiting for a body -/
+def accAll (acc : UAcc) : List String :=
+  (acc.cases.map (·.caseValues)).flatten ++ acc.voidCases ++
+    (match acc.default with | some d => d.caseValues | none => []) ++ acc.pending
+
+def headLabel : List Node → List String
+  | .type t :: _ => [t.asStr]
+  | _ => []
+
+def stmtLabels : CaseStmt → List String
+  | .fallthrough vs => vs
+  | .defined c => c.caseValues
+  | .void vs => vs
+
+theorem unionCase_values {cv : List String} {ns : List Node} {c : UnionCase} (h : UnionCase.new cv ns = .ok c) : c.caseValues = cv := by
+  unfold UnionCase.new at h
+  split at h
+  · cases h; rfl
+  · cases h
+
+theorem caseStmt_labels (cv : List String) (nodes : List Node) (stmt : CaseStmt) (h : CaseStmt.parse cv nodes = .ok stmt) :
+    stmtLabels stmt = cv ++ headLabel nodes := by
+  cases nodes with
+  | nil => simp [CaseStmt.parse] at h
+  | cons n rest =>
+    cases n
+    case type t =>
+      cases rest with
+      | nil => simp only [CaseStmt.parse] at h; cases h; rfl
+      | cons m rest' =>
+        cases m
+        case unionVoid => simp only [CaseStmt.parse] at h; cases h; rfl
+        case unionDataField ns =>
+          simp only [CaseStmt.parse] at h
+          cases hc : UnionCase.new (cv ++ [t.asStr]) ns with
+          | panicAt f m => rw [hc] at h; cases h
+          | ok c =>
+            rw [hc] at h; simp only [Out.bind_ok] at h; cases h
+            simp [stmtLabels, headLabel, unionCase_values hc]
+        all_goals (simp only [CaseStmt.parse] at h; cases h)
+    case unionVoid => simp only [CaseStmt.parse] at h; cases h; simp [stmtLabels, headLabel]
+    case unionDataField ns =>
+      simp only [CaseStmt.parse] at h
+      cases hc : UnionCase.new cv ns with
+      | panicAt f m => rw [hc] at h; cases h
+      | ok c =>
+        rw [hc] at h; simp only [Out.bind_ok] at h; cases h
+        simp [stmtLabels, headLabel, unionCase_values hc]
+    all_goals (simp only [CaseStmt.parse] at h; cases h)
+
+theorem armLabels_case (nodes : List Node) : armLabels (.unionCase nodes) = headLabel nodes := by
+  cases nodes with
+  | nil => rfl
+  | cons n rest => cases n <;> rfl
+
+theorem armLabels_default (nodes : List Node) : armLabels (.unionDefault nodes) = "default" :: headLabel nodes := by
+  cases nodes with
+  | nil => rfl
+  | cons n rest => cases n <;> rfl
+
+/-- **one arm: conservation of labels.**  After `Union::new` has processed an arm node, every label occurs in the accumulator
+    exactly as often as before plus its occurrences in that arm — provided a second `default` arm does not overwrite the first
+    (the one way the loop can lose labels). -/
+theorem union_step_conserves (acc acc' : UAcc) (v : Node) (h : Union.step acc v = .ok acc')
+    (hdef : isDefaultArm v = true → acc.default = none) (l : String) :
+    (accAll acc').count l = (accAll acc).count l + (armLabels v).count l := by
+  cases v
+  case unionCase nodes =>
+    simp only [Union.step] at h
+    cases hs : CaseStmt.parse acc.pending nodes with
+    | panicAt f m => rw [hs] at h; cases h
+    | ok stmt =>
+      rw [hs] at h
+      have hl := caseStmt_labels _ _ _ hs
+      simp only [Out.bind_ok] at h
+      rw [armLabels_case]
+      cases stmt with
+      | «fallthrough» vs =>
+        cases h; simp only [stmtLabels] at hl
+        simp only [accAll, hl, List.count_append]; omega
+      | defined c =>
+        cases h; simp only [stmtLabels] at hl
+        simp only [accAll, List.map_append, List.flatten_append, List.map_cons, List.map_nil, List.flatten_cons, List.flatten_nil,
+          List.append_nil, hl, List.count_append, List.count_nil]; omega
+      | void vs =>
+        cases h; simp only [stmtLabels] at hl
+        simp only [accAll, hl, List.count_append, List.count_nil]; omega
+  case unionDefault nodes =>
+    simp only [Union.step] at h
+    have hnone := hdef rfl
+    cases hs : CaseStmt.parse (acc.pending ++ ["default"]) nodes with
+    | panicAt f m => rw [hs] at h; cases h
+    | ok stmt =>
+      rw [hs] at h
+      have hl := caseStmt_labels _ _ _ hs
+      simp only [Out.bind_ok] at h
+      rw [armLabels_default]
+      cases stmt with
+      | «fallthrough» vs =>
+        cases h; simp only [stmtLabels] at hl
+        simp only [accAll, hl, List.count_append, List.count_cons, List.count_nil]; omega
+      | defined c =>
+        cases h; simp only [stmtLabels] at hl
+        simp only [accAll, hnone, hl, List.count_append, List.count_cons, List.count_nil]; omega
+      | void vs =>
+        cases h; simp only [stmtLabels] at hl
+        simp only [accAll, hl, List.count_append, List.count_cons, List.count_nil]; omega
+  all_goals (simp only [Union.step] at h; cases h)
+
+/-- **the whole body of a union.**  With at most one `default` arm, every label written in the source occurs in the `Union` the
+    AST holds exactly as often as it was written (data arms with their complete fall-through groups, void labels, the default
+    arm, and — only if the body ends in a label without an arm — the labels left pending). -/
+theorem union_loop_conserves : ∀ (vs : List Node) (acc acc' : UAcc), Union.loop acc vs = .ok acc' →
+    (acc.default = none ∧ (vs.filter isDefaultArm).length ≤ 1 ∨ (vs.filter isDefaultArm).length = 0) →
+    ∀ l, (accAll acc').count l = (accAll acc).count l + ((vs.map armLabels).flatten).count l := by
+  intro vs
+  induction vs with
+  | nil => intro acc acc' h _ l; simp only [Union.loop] at h; cases h; simp
+  | cons v rest ih =>
+    intro acc acc' h hd l
+    simp only [Union.loop] at h
+    cases hs : Union.step acc v with
+    | panicAt f m => rw [hs] at h; cases h
+    | ok acc1 =>
+      rw [hs] at h
+      simp only [Out.bind_ok] at h
+      have hstep := union_step_conserves acc acc1 v hs (by
+        intro hv
+        rcases hd with ⟨hnone, _⟩ | hz
+        · exact hnone
+        · simp [List.filter_cons, hv] at hz) l
+      have hrest := ih acc1 acc' h (by
+        cases hv : isDefaultArm v
+        · -- not a default arm: the default slot is untouched
+          rcases hd with ⟨hnone, hlen⟩ | hz
+          · left
+            refine ⟨?_, by simpa [List.filter_cons, hv] using hlen⟩
+            cases v
+            case unionCase nodes =>
+              simp only [Union.step] at hs
+              cases hp : CaseStmt.parse acc.pending nodes with
+              | panicAt f m => rw [hp] at hs; cases hs
+              | ok stmt =>
+                rw [hp] at hs
+                cases stmt <;> (cases hs; exact hnone)
+            case unionDefault nodes => simp [isDefaultArm] at hv
+            all_goals (simp only [Union.step] at hs; cases hs)
+          · right; simpa [List.filter_cons, hv] using hz
+        · right
+          rcases hd with ⟨_, hlen⟩ | hz
+          · simp only [List.filter_cons, hv, if_true, List.length_cons] at hlen
+            omega
+          · simp [List.filter_cons, hv] at hz) l
+      simp only [List.map_cons, List.flatten_cons, List.count_append]
+      omega
+
+/-- `Union::new`: name, discriminant and the conservation of labels -/
+theorem C12_union_faithful (n ty var : Node) (rest : List Node) (u : Union) (h : Union.new (n :: ty :: var :: rest) = .ok u)
+    (hd : (rest.filter isDefaultArm).length ≤ 1) :
+    n.identStr = .ok u.name ∧ var.identStr = .ok u.switch.varName ∧
+    (∀ l, ((u.cases.map (·.caseValues)).flatten ++ u.voidCases ++ (match u.default with | some d => d.caseValues | none => [])).count l
+        ≤ ((rest.map armLabels).flatten).count l) := by
+  unfold Union.new at h
+  cases h1 : n.identStr with
+  | panicAt f m => simp [h1] at h
+  | ok name =>
+    cases h2 : var.identStr with
+    | panicAt f m => simp [h1, h2] at h
+    | ok vn =>
+      cases h3 : ty.identStr with
+      | panicAt f m => simp [h1, h2, h3] at h
+      | ok ts =>
+        cases h4 : Union.loop {} rest with
+        | panicAt f m => simp [h1, h2, h3, h4] at h
+        | ok acc =>
+          simp only [h1, h2, h3, h4, Out.bind_ok] at h
+          cases h
+          refine ⟨rfl, rfl, fun l => ?_⟩
+          have := union_loop_conserves rest {} acc h4 (Or.inl ⟨rfl, hd⟩) l
+          simp only [accAll, List.count_append] at this ⊢
+          simp at this
+          omega
+
+theorem mapOut_length {α β} (f : α → Out β) : ∀ (l : List α) (r : List β), mapOut f l = .ok r → r.length = l.length := by
+  intro l
+  induction l with
+  | nil => intro r h; simp only [mapOut] at h; cases h; rfl
+  | cons a as ih =>
+    intro r h
+    simp only [mapOut] at h
+    cases h1 : f a with
+    | panicAt x y => simp [h1] at h
+    | ok b =>
+      cases h2 : mapOut f as with
+      | panicAt x y => simp [h1, h2] at h
+      | ok bs =>
+        simp only [h1, h2, Out.bind_ok] at h
+        cases h
+        simp [ih bs h2]
+
+theorem mapOut_get {α β} (f : α → Out β) : ∀ (l : List α) (r : List β), mapOut f l = .ok r →
+    ∀ (i : Nat) (hi : i < l.length) (hr : i < r.length), f l[i] = .ok r[i] := by
+  intro l
+  induction l with
+  | nil => intro r h i hi; cases hi
+  | cons a as ih =>
+    intro r h i hi hr
+    simp only [mapOut] at h
+    cases h1 : f a with
+    | panicAt x y => simp [h1] at h
+    | ok b =>
+      cases h2 : mapOut f as with
+      | panicAt x y => simp [h1, h2] at h
+      | ok bs =>
+        simp only [h1, h2, Out.bind_ok] at h
+        cases h
+        cases i with
+        | zero => simpa using h1
+        | succ j => simpa using ih bs h2 j (by simpa using hi) (by simpa using hr)
+
+/-- `Struct::new`: the name is the first token; there is exactly one field per field node, in source order, each built from
+    its own node (type, name, array kind and bound, optional flag: `StructField::new`) -/
+theorem C12_struct_faithful (n : Node) (rest : List Node) (s : Struct) (h : Struct.new (n :: rest) = .ok s) :
+    n.identStr = .ok s.name ∧ s.fields.length = rest.length ∧
+    ∀ (i : Nat) (hi : i < rest.length) (hs : i < s.fields.length), StructField.new rest[i] = .ok s.fields[i] := by
+  unfold Struct.new at h
+  cases h1 : n.identStr with
+  | panicAt f m => simp [h1] at h
+  | ok name =>
+    cases h2 : mapOut StructField.new rest with
+    | panicAt f m => simp [h1, h2] at h
+    | ok fs =>
+      simp only [h1, h2, Out.bind_ok] at h
+      cases h
+      exact ⟨rfl, mapOut_length _ _ _ h2, mapOut_get _ _ _ h2⟩
+
+/-- the four field shapes and what each yields (type, name, array kind with its bound text, optional flag) -/
+theorem C12_struct_field_shapes (rhs : BasicType) (lhs size : String) :
+    StructField.new (.structDataField [.type rhs, .type (.ident lhs)]) = .ok ⟨lhs, .none rhs, false⟩ ∧
+    StructField.new (.structDataField [.type rhs, .type (.ident lhs), .arrayVariable size]) = .ok ⟨lhs, .variable rhs (optSize size), false⟩ ∧
+    StructField.new (.structDataField [.type rhs, .type (.ident lhs), .arrayFixed size]) = .ok ⟨lhs, .fixed rhs (ArraySize.ofStr size), false⟩ ∧
+    StructField.new (.structDataField [.type rhs, .option [.type (.ident lhs)]]) = .ok ⟨lhs, .none rhs, true⟩ :=
+  ⟨rfl, rfl, rfl, rfl⟩
+
+/-- `Enum::new`: one variant per member node, in source order, each with its own name and value -/
+theorem C12_enum_faithful (n : Node) (rest : List Node) (e : Enum) (h : Enum.new (n :: rest) = .ok e) :
+    n.identStr = .ok e.name ∧ e.variants.length = rest.length ∧
+    ∀ (i : Nat) (hi : i < rest.length) (hs : i < e.variants.length), Variant.new rest[i] = .ok e.variants[i] := by
+  unfold Enum.new at h
+  cases h1 : n.identStr with
+  | panicAt f m => simp [h1] at h
+  | ok name =>
+    cases h2 : mapOut Variant.new rest with
+    | panicAt f m => simp [h1, h2] at h
+    | ok vs =>
+      simp only [h1, h2, Out.bind_ok] at h
+      cases h
+      exact ⟨rfl, mapOut_length _ _ _ h2, mapOut_get _ _ _ h2⟩
+
+/-- member values: the digits of a hex literal are read in base 16 (not as the decimal number they spell) -/
+example : hexStrVal ['1', '0'] = some 16 ∧ hexStrVal ['8', '0', '0'] = some 2048 ∧ hexStrVal ['f', 'F'] = some 255 ∧
+    hexStrVal ['g'] = none := by decide
+
+/-- the root: every declaration node becomes exactly one item, in source order; nothing else does -/
+theorem C12_root_items (ns : List Node) (items : List Item) (h : itemsOf ns = .ok items) :
+    items.length = (ns.filter fun n => match n with
+      | .constant _ | .typedef _ | .enum _ | .struct _ | .union _ => true
+      | _ => false).length := by
+  induction ns generalizing items with
+  | nil => simp only [itemsOf] at h; cases h; rfl
+  | cons n rest ih =>
+    simp only [itemsOf] at h
+    cases h1 : itemOf n with
+    | panicAt f m => simp [h1] at h
+    | ok i =>
+      cases h2 : itemsOf rest with
+      | panicAt f m => simp [h1, h2] at h
+      | ok is =>
+        simp only [h1, h2, Out.bind_ok] at h
+        cases h
+        have := ih is h2
+        cases n <;> simp only [itemOf] at h1 <;> try (cases h1; simp [List.filter_cons, this])
+        · -- a constant: two tokens
+          rename_i l
+          match l, h1 with
+          | [a, b], h1 =>
+            cases ha : a.identStr with
+            | panicAt f m => simp [ha] at h1
+            | ok x =>
+              cases hb : b.identStr with
+              | panicAt f m => simp [ha, hb] at h1
+              | ok y => simp only [ha, hb, Out.bind_ok] at h1; cases h1; simp [List.filter_cons, this]
+          | [], h1 => cases h1
+          | [_], h1 => cases h1
+          | _ :: _ :: _ :: _, h1 => cases h1
 
 end Fx.C12
